@@ -120,6 +120,88 @@ Theorem C16_response_ok_sound : forall file size rng,
 Proof. exact response_ok_sound. Qed.
 Print Assumptions C16_response_ok_sound.
 
+(* ---- headers of a served file *)
+Theorem C16_basename_no_slash : forall p, ~ In SLASH (basename p).
+Proof. exact basename_no_slash. Qed.
+Print Assumptions C16_basename_no_slash.
+
+Theorem C16_basename_suffix : forall p, exists pre, p = pre ++ basename p.
+Proof. exact basename_suffix. Qed.
+Print Assumptions C16_basename_suffix.
+
+(* the extension used for the Content-Type lookup is empty or ".e": a proper suffix of the base
+   name, after its last dot *)
+Theorem C16_splitext_shape : forall p,
+  splitext_ext p = [] \/
+  exists pre e, splitext_ext p = DOT :: e /\ basename p = pre ++ DOT :: e /\ pre <> [] /\
+                ~ In DOT e /\ ~ In SLASH e.
+Proof. exact splitext_shape. Qed.
+Print Assumptions C16_splitext_shape.
+
+Theorem C16_content_type_default : forall types f,
+  types_get types (splitext_ext f) = None -> content_type_of types f = s_octet_stream.
+Proof. exact content_type_default. Qed.
+Print Assumptions C16_content_type_default.
+
+(* Content-Disposition exactly for downloadable routes, naming the served file *)
+Theorem C16_disposition_iff : forall rt f n,
+  disposition_of rt f = Some n <-> r_downloadable rt = true /\ n = basename f.
+Proof. exact disposition_iff. Qed.
+Print Assumptions C16_disposition_iff.
+
+(* headers are derived from the file that is actually served (the fallback's name when the
+   fallback is served), and only 200/206 responses carry them *)
+Theorem C16_served_headers_of_file : forall rt types r,
+  served_headers rt types r =
+  match r with
+  | R200 _ _ | R206 _ _ _ _ =>
+    match file_of r with
+    | Some f => Some (content_type_of types f, disposition_of rt f)
+    | None => None
+    end
+  | _ => None
+  end.
+Proof. exact served_headers_of_file. Qed.
+Print Assumptions C16_served_headers_of_file.
+
+(* ---- the fallback branch: served exactly when the sanitised candidate is not a regular file
+   and a fallback is configured; a REJECTED path is a 404 even with a fallback
+   (C16_rejected_is_404) *)
+Theorem C16_fallback_opened_iff : forall rt files fp fb v,
+  r_fallback rt = Some fb ->
+  (opened_file rt files fp = Some (fb, v) /\ fs_get files fp = None <->
+   fs_get files fp = None /\ fs_get files fb = Some v).
+Proof. exact fallback_opened_iff. Qed.
+Print Assumptions C16_fallback_opened_iff.
+
+Theorem C16_candidate_preferred : forall rt files fp v,
+  fs_get files fp = Some v -> opened_file rt files fp = Some (fp, v).
+Proof. exact candidate_preferred. Qed.
+Print Assumptions C16_candidate_preferred.
+
+Theorem C16_no_fallback_configured : forall rt files fp,
+  r_fallback rt = None ->
+  opened_file rt files fp = match fs_get files fp with Some v => Some (fp, v) | None => None end.
+Proof. exact no_fallback_configured. Qed.
+Print Assumptions C16_no_fallback_configured.
+
+Theorem C16_served_file_is_candidate_or_fallback : forall rt files path ims rng f,
+  file_of (serve rt files false path ims rng) = Some f ->
+  exists fp, sanitize (length (r_prefix rt)) (has_fb rt) (r_dir rt) path = Some fp /\
+    ((f = fp /\ fs_get files fp <> None) \/ (r_fallback rt = Some f /\ fs_get files fp = None)).
+Proof. exact served_file_is_candidate_or_fallback. Qed.
+Print Assumptions C16_served_file_is_candidate_or_fallback.
+
+(* the bare prefix ("/static/", and "/static" through match): accepted only with a fallback;
+   its candidate is the directory itself, never a regular file, so the fallback is served *)
+Theorem C16_empty_remainder : forall rt,
+  sanitize (length (r_prefix rt)) (has_fb rt) (r_dir rt) (r_prefix rt) =
+  if has_fb rt && negb (contains (dir_slash (r_dir rt) ++ dot) dotdot)
+               && startswith (dir_slash (r_dir rt) ++ dot) (r_dir rt)
+  then Some (dir_slash (r_dir rt) ++ dot) else None.
+Proof. exact empty_remainder. Qed.
+Print Assumptions C16_empty_remainder.
+
 (* ---- non-vacuity *)
 Definition d_srv : str := [47; 115; 114; 118]%N.                 (* "/srv" *)
 Definition p_static_sub_a : str :=                                 (* "/static/sub/./a" *)
@@ -136,4 +218,10 @@ Example C16_range_examples :
   set_range 9 (Some (encode (FromTo 2 100))) = Slice 2 7 (2, 8, 9)
   /\ set_range 9 (Some (encode (Suffix 100))) = Slice 0 9 (0, 8, 9)
   /\ set_range 9 (Some (encode (From 9))) = Unsat 9.
+Proof. vm_compute. repeat split; reflexivity. Qed.
+
+Example C16_header_examples :
+  splitext_ext [47; 97; 46; 116; 97; 114; 46; 103; 122]%N = [46; 103; 122]%N      (* "/a.tar.gz" -> ".gz" *)
+  /\ splitext_ext [120; 47; 46; 98; 97; 115; 104; 114; 99]%N = []                (* "x/.bashrc" -> "" *)
+  /\ basename [120; 47; 46; 98]%N = [46; 98]%N.                                   (* "x/.b" -> ".b" *)
 Proof. vm_compute. repeat split; reflexivity. Qed.
